@@ -10,7 +10,8 @@ from harness.props import c07
 ID = "C08"
 RULE = ("(patching text, ordering text, vendor, old, new): random rulebooks as in C03 plus ordering rulebooks (nesting<=3, "
         "%order_reverse, %global, %scope, overlapping and disjoint sibling rules, rules in negated form); the patch of "
-        "(old,new) and order_config(new) are checked; non-trivial = some block of the patch has >=3 commands with >=2 "
+        "(old,new) and order_config(new) are checked;" + rbgen.SMALL_RULE % (", under four small ordering rulebooks", "") +
+        " non-trivial = some block of the patch has >=3 commands with >=2 "
         "different sort keys; distinct = distinct case")
 TRUSTED_BASE = [
     "Lean 4.33 kernel; axioms per theorem listed (subset of propext, Classical.choice, Quot.sound)",
@@ -28,10 +29,22 @@ def setup_worker():
 
 def shards(tier, seed):
     n = 200 if tier == "quick" else 20000
-    return [dict(seed=seed * 1000 + i, n=n) for i in range(16)]
+    out = [dict(seed=seed * 1000 + i, n=n) for i in range(16)]
+    # the small space of rbgen under four small ordering rulebooks (plain, nested, %order_reverse, %global)
+    if tier == "quick":
+        out += [dict(kind="small", part=(seed * 2 + i) % 2048, parts=2048) for i in range(2)]
+    else:
+        out += [dict(kind="small", part=i, parts=64) for i in range(64)]
+    return out
 
 
 def gen(desc):
+    if desc.get("kind") == "small":
+        for c in rbgen.small_cases(desc["part"], desc["parts"], orderings=rbgen.SMALL_ORDERINGS):
+            rng = random.Random(len(c["ptext"]) * 31 + len(str(c["old"])) * 7 + len(str(c["new"])))
+            c["oc"] = with_negated_rows(rng, c["new"], REV.get(c["vendor"], "no"))
+            yield c
+        return
     rng = random.Random(desc["seed"])
     for _ in range(desc["n"]):
         c = rbgen.gen_case(rng, overlap=rng.random() < 0.5)
